@@ -530,3 +530,19 @@ Fixpoint ed_b_build (p : ed_bpdu) (ops : list bop) : option (list bool * ed_bpdu
       rs <- ed_b_build (snd r) tl ;;
       Some (fst r :: fst rs, snd rs)
   end.
+
+(* ---- coap_update_token on a PDU that belongs to a session and has an encoded header
+        (pdu->hdr_size && pdu->session): the header in memory, token - hdr_size .. token ----
+   [h] = the header bytes before the call.  The C re-encodes the header when the stored
+   e_token_length changed; on the used_size == 0 path (coap_add_token) the repaired code
+   re-encodes when a token was added, the pinned code ([fixed] = false) never did. *)
+Definition ed_b_token_hdr_gen (fixed : bool) (pr : proto) (h : bytes) (p : ed_bpdu) (t : bytes)
+  : option (bool * ed_bpdu * bytes) :=
+  r <- ed_b_token p t ;;
+  if negb (fst r) then Some (r, h) else
+  let reenc :=
+    if ed_used p =? 0 then fixed && negb (eb_etl (snd r) =? 0)
+    else negb (eb_etl p =? eb_etl (snd r)) in
+  if reenc then m <- ed_abs (snd r) ;; Some (r, header pr m) else Some (r, h).
+
+Definition ed_b_token_hdr := ed_b_token_hdr_gen true.
